@@ -187,6 +187,9 @@ func (fm *family) invalidate(r *rand.Rand, f cu.Frame) cu.Frame {
 		g[i][0] |= 0x80
 	case 3: // too short
 		g[i] = g[i][:r.IntN(fm.naluHdr)]
+		if len(g) == 1 && len(g[0]) == 0 { // a lone empty unit has no rendering on an op line
+			g = append(g, fm.genNALU(r, fm.naluHdr+1))
+		}
 	case 4: // too many NALUs
 		for len(g) <= fm.maxNALUs {
 			g = append(g, fm.genNALU(r, fm.naluHdr))
